@@ -2836,6 +2836,12 @@ start:
       rc = IW_ERROR_INVALID_STATE;
       goto finish;
     }
+    // The cursor's lookup context is long lived: start every search afresh
+    lx->lower = 0;
+    lx->upper = 0;
+    lx->nlvl = -1;
+    lx->upper_addr = 0;
+    lx->dblk.addr = 0;
     rc = _cursor_get_ge_idx(lx, op, &cur->cnpos);
     if (lx->upper) {
       _sblk_release(lx, &lx->upper);
